@@ -7,6 +7,7 @@ pub mod c03;
 pub mod c04;
 pub mod c05;
 pub mod c06;
+pub mod c07;
 
 pub fn dispatch(args: &Args, rep: &mut Report) {
     match args.prop.as_str() {
@@ -16,6 +17,7 @@ pub fn dispatch(args: &Args, rep: &mut Report) {
         "C04" => c04::run(args, rep),
         "C05" => c05::run(args, rep),
         "C06" => c06::run(args, rep),
+        "C07" => c07::run(args, rep),
         p => {
             eprintln!("unknown property {p}");
             std::process::exit(2);
